@@ -83,6 +83,58 @@ def tuple_cases():
     return cases
 
 
+FAITH_HEADER = """pragma circom 2.1.0;
+template Split() { signal input in; signal output lo; signal output mid; signal output hi; lo <== in * in; mid <== in + 1; hi <== in + 2; }
+template Two() { signal input a; signal input b; signal output o; signal output r; o <== a * b; r <== a - b; }
+template Sugar() {
+  signal input x; signal input y; signal output p; signal output q;
+%s
+}
+component main = Sugar();
+"""
+
+def faithful_cases():
+    """(name, sugared statements, hand-written expansion): the displayed findings must be the same multiset"""
+    c = []
+    outs = ["lo", "mid", "hi"]
+    # an anonymous component whose outputs are read through a tuple with `_` in every position pattern
+    for mask in [(1, 0, 1), (0, 1, 1), (1, 1, 0), (1, 0, 0), (0, 0, 1), (0, 1, 0)]:
+        dst = iter(["p", "q"])
+        lhs, exp = [], []
+        for k, m in enumerate(mask):
+            if m:
+                dname = next(dst)
+                lhs.append(dname)
+                exp.append(f"{dname} <== s.{outs[k]};")
+            else:
+                lhs.append("_")
+        rest = [f"{dname} <== x;" for dname in dst]
+        c.append(("anon-outputs-" + "".join(map(str, mask)),
+                  f"({', '.join(lhs)}) <== Split()(x); " + " ".join(rest),
+                  "component s = Split(); s.in <== x; " + " ".join(exp) + " " + " ".join(rest)))
+    # tuple to tuple with `_`
+    c.append(("tuple-skip-middle", "(p, _, q) <== (x, y * y, x + 1);", "p <== x; q <== x + 1;"))
+    c.append(("tuple-skip-first", "(_, p, q) <== (y * y, x, x + 1);", "p <== x; q <== x + 1;"))
+    c.append(("tuple-var-order", "var a; var b; (a, b) = (1, 2); p <== x * a; q <== x * b;", "var a; var b; a = 1; b = 2; p <== x * a; q <== x * b;"))
+    # anonymous component inputs: positional and named (in either order)
+    exp2 = "component t = Two(); t.a <== x; t.b <== y; p <== t.o; q <== t.r;"
+    c.append(("anon-positional", "(p, q) <== Two()(x, y);", exp2))
+    c.append(("anon-named", "(p, q) <== Two()(a <== x, b <== y);", exp2))
+    c.append(("anon-named-swapped", "(p, q) <== Two()(b <== y, a <== x);", exp2))
+    c.append(("anon-one-output-skipped", "(p, _) <== Two()(x, y); q <== x;", "component t = Two(); t.a <== x; t.b <== y; p <== t.o; q <== x;"))
+    return c
+
+
+def findings_of(out):
+    """the displayed findings without file positions: (severity[code], first message line)"""
+    import re
+    f = []
+    for l in out.split("\n"):
+        if re.match(r"^(warning|error|note|info)(\[\w+\])?:", l):
+            f.append(l.strip())
+    return sorted(f)
+
+
 def suite_tuples(exe, tier, seed):
     cases = tuple_cases()
     viol, samples = [], []
@@ -90,6 +142,29 @@ def suite_tuples(exe, tier, seed):
     nontrivial = 0
     d = tempfile.mkdtemp(prefix="vx-e2e-")
     try:
+        # ---- faithfulness: findings of the sugared statement == findings of the hand-written expansion
+        for (name, sugar, expanded) in faithful_cases():
+            res = []
+            for body in (sugar, expanded):
+                path = os.path.join(d, "f.circom")
+                open(path, "w").write(FAITH_HEADER % ("  " + body))
+                rc, out, err = run_cli(exe, [path], d)
+                res.append((rc, findings_of(out), err))
+            evals += 1
+            nontrivial += 1
+            what = None
+            (rc1, f1, e1), (rc2, f2, e2) = res
+            if rc1 is None or "panicked" in e1 or rc1 not in (0, 1):
+                what = f"the tool aborted or hung on the sugared form (exit {rc1})"
+            elif rc2 not in (0, 1):
+                continue  # the hand-written expansion itself is not accepted: the case says nothing
+            elif f1 != f2 or rc1 != rc2:
+                what = f"findings differ from the hand-written expansion: sugared {f1} (exit {rc1}) vs expanded {f2} (exit {rc2})"
+            if what and len(viol) < 20:
+                viol.append({"unit": "e2e", "fn": "remove_tuples_from_statement", "obligation": f"e2e|tuples|faithful:{name}",
+                             "props": ["C18", "C01"] if "aborted" in what else ["C18"],
+                             "input": {"sugared": sugar, "expanded": expanded},
+                             "what": f"`{sugar}`: {what}", "replay": "python3 run/e2e.py tuples quick 0"})
         for (kind, pos, stmt) in cases:
             src = HEADER + (TEMPLATE if kind == "template" else FUNCTION) % stmt
             path = os.path.join(d, "t.circom")
@@ -107,13 +182,14 @@ def suite_tuples(exe, tier, seed):
                 what = f"the tool aborted (exit {rc}): {first.strip()[:200]}"
             if what and len(viol) < 20:
                 viol.append({"unit": "e2e", "fn": "remove_tuples_from_statement", "obligation": f"e2e|tuples|{kind}:{pos}",
+                             "props": ["C18", "C01"],
                              "input": {"kind": kind, "position": pos, "statement": stmt},
                              "what": f"a tuple at position {kind}:{pos} (`{stmt}`): {what}", "replay": "python3 run/e2e.py tuples quick 0"})
     finally:
         shutil.rmtree(d, ignore_errors=True)
     return {"unit": "e2e-tuples", "evaluations": evals, "distinct_nontrivial": nontrivial, "exhaustive": True,
-            "rule": "the real CLI on one generated file per (definition kind, syntactic position, tuple shape); the tool must terminate with exit status 0 or 1 and must not panic; every case is distinct and non-trivial (contains a tuple)",
-            "bound": "3 tuple shapes (flat, with a signal, nested) x 19 positions (assignment sides, conditions, array indices, assert/log/return/call arguments, operands, initialisers, loop bodies) in templates and functions, plus 8 well-formed / malformed tuple statements",
+            "rule": "the real CLI (a) on a sugared statement and on its hand-written expansion: same exit status and same displayed findings; (b) on one generated file per (definition kind, syntactic position, tuple shape): the tool must terminate with exit status 0 or 1 and must not panic; every case is distinct and non-trivial (contains a tuple)",
+            "bound": "faithfulness: 13 sugared statements (tuple destinations with `_` in every position, tuple-to-tuple, anonymous components with positional / named / swapped named inputs) against their hand-written expansions, findings compared as multisets without positions; completeness: 3 tuple shapes (flat, with a signal, nested) x 19 positions (assignment sides, conditions, array indices, assert/log/return/call arguments, operands, initialisers, loop bodies) in templates and functions, plus 8 well-formed / malformed tuple statements",
             "samples": samples, "violations": viol}
 
 
@@ -211,6 +287,78 @@ def suite_output(exe, tier, seed):
             "samples": samples, "violations": viol}
 
 
+VAL_TEMPLATE = """pragma circom 2.0.0;
+template T(n) {
+  signal input in;
+  signal output out;
+  var r = 0;
+%s
+  log(r);
+}
+component main = T(1);
+"""
+
+def value_cases():
+    """(name, body, may_claim): a carrier (signal, or variable) assigned in the two branches of a conditional that depends on a
+    template parameter, then compared with the first constant. `may_claim`: the set of 'always true/false' claims that are sound."""
+    rhs = {"c1": "1", "c2": "2", "u": "in"}
+    cases = []
+    for carrier in ("signal", "var", "signal-then-only", "var-loop"):
+        for a in ("c1", "c2", "u"):
+            for b in ("c1", "c2", "u"):
+                if carrier == "signal":
+                    body = f"  if (n == 0) {{ out <== {rhs[a]}; }} else {{ out <== {rhs[b]}; }}\n  if (out == 1) {{ r = 1; }} else {{ r = 2; }}"
+                elif carrier == "var":
+                    body = f"  var v;\n  if (n == 0) {{ v = {rhs[a]}; }} else {{ v = {rhs[b]}; }}\n  if (v == 1) {{ r = 1; }} else {{ r = 2; }}\n  out <== in;"
+                elif carrier == "signal-then-only":
+                    if b != "c1":
+                        continue
+                    body = f"  if (n == 0) {{ out <== {rhs[a]}; }}\n  if (out == 1) {{ r = 1; }} else {{ r = 2; }}"
+                else:
+                    body = f"  var v = {rhs[a]};\n  for (var i = 0; i < n; i++) {{ v = {rhs[b]}; }}\n  if (v == 1) {{ r = 1; }} else {{ r = 2; }}\n  out <== in;"
+                if carrier == "signal-then-only":
+                    # a signal assigned on one path only: where it is defined it holds that value
+                    claim = {"c1": "true", "c2": "false", "u": None}[a]
+                else:
+                    claim = "true" if (a, b) == ("c1", "c1") else "false" if (a, b) == ("c2", "c2") else None
+                cases.append((f"{carrier}:{a}/{b}", body, claim))
+    return cases
+
+
+def suite_values(exe, tier, seed):
+    import re
+    viol, samples = [], []
+    evals = nontrivial = 0
+    d = tempfile.mkdtemp(prefix="vx-e2e-")
+    try:
+        for (name, body, claim) in value_cases():
+            path = os.path.join(d, "v.circom")
+            open(path, "w").write(VAL_TEMPLATE % body)
+            rc, out, err = run_cli(exe, [path], d)
+            evals += 1
+            nontrivial += 1
+            made = set(re.findall(r"This condition is always (true|false)", out))
+            if len(samples) < 6 and evals % 5 == 1:
+                samples.append({"case": name, "exit": rc, "claims": sorted(made)})
+            what, props = None, ["C06"]
+            if rc is None or "panicked" in err or rc not in (0, 1):
+                first = next((l for l in err.split("\n") if "panicked" in l), err[:200])
+                what, props = f"the tool aborted (exit {rc}): {first.strip()[:160]}", ["C01"]
+            else:
+                wrong = [m for m in made if m != claim]
+                if wrong:
+                    what = f"claims the condition on the carrier is always {wrong[0]}, but the carrier can hold a value for which it is not (sound claim: {claim})"
+            if what and len(viol) < 20:
+                viol.append({"unit": "e2e", "fn": "Statement::propagate_values", "obligation": f"e2e|values|{name}", "props": props,
+                             "input": {"case": name, "body": body}, "what": f"{name}: {what} — body:\n{body}", "replay": "python3 run/e2e.py values quick 0"})
+    finally:
+        shutil.rmtree(d, ignore_errors=True)
+    return {"unit": "e2e-values", "evaluations": evals, "distinct_nontrivial": nontrivial, "exhaustive": True,
+            "rule": "the real CLI on a template in which a carrier (signal or variable) is assigned a constant or an unknown value on each of two paths and then compared with a constant: the tool must not abort, and may report `This condition is always true/false` only when every path assigns the matching constant",
+            "bound": "4 carriers (signal in both branches, variable in both branches, signal in one branch, variable updated in a loop) x {1, 2, unknown}^2 assignments",
+            "samples": samples, "violations": viol}
+
+
 def main():
     suite, tier, seed = sys.argv[1], (sys.argv[2] if len(sys.argv) > 2 else "quick"), int(sys.argv[3]) if len(sys.argv) > 3 else 0
     try:
@@ -218,7 +366,7 @@ def main():
     except Exception as e:
         print(json.dumps({"error": str(e)}))
         return
-    r = {"tuples": suite_tuples, "output": suite_output}[suite](exe, tier, seed)
+    r = {"tuples": suite_tuples, "output": suite_output, "values": suite_values}[suite](exe, tier, seed)
     print(json.dumps(r))
 
 if __name__ == "__main__":
